@@ -10,6 +10,9 @@ Open Scope R_scope.
 Lemma g_pos : 0 < c_earth_standard_gravity. Proof. unfold c_earth_standard_gravity; lra. Qed.
 Lemma Rd_pos : 0 < c_gas_constant_dry_air. Proof. unfold c_gas_constant_dry_air; lra. Qed.
 Lemma Rv_pos : 0 < c_gas_constant_water_vapor. Proof. unfold c_gas_constant_water_vapor; lra. Qed.
+(* the one fact about the translated `density` the sign lemmas need, whichever way the source writes the quotient *)
+Lemma density_quotient p T R0 : 0 < R0 -> 0 < T -> density p T R0 = p / (R0 * T).
+Proof. intros HR HT. unfold density. field. repeat split; lra. Qed.
 
 Lemma Forall_map_R {A} (P : R -> Prop) (f : A -> R) l : List.Forall (fun a => P (f a)) l -> List.Forall P (map f l).
 Proof. induction 1; cbn [map]; constructor; auto. Qed.
@@ -48,7 +51,7 @@ Lemma iwv_general_nonneg vmr p T z : List.Forall (fun x => 0 <= x) vmr -> List.F
   List.Forall (fun x => 0 < x) T -> nondecreasing z -> 0 <= iwv_general vmr p T z.
 Proof.
   intros Hv Hp HT Hz. unfold iwv_general. apply trapz_nonneg; [|exact Hz].
-  apply zip3_nonneg; auto. intros x y t Hx Hy Ht. unfold density.
+  apply zip3_nonneg; auto. intros x y t Hx Hy Ht. rewrite (density_quotient y t _ Rv_pos Ht). unfold Rdiv.
   pose proof Rv_pos as HR. apply Rmult_le_pos; [exact Hx|]. apply Rmult_le_pos; [exact Hy|].
   left. apply Rinv_0_lt_compat. nra.
 Qed.
@@ -190,7 +193,7 @@ Lemma density_pos : forall p T, List.Forall (fun x => 0 < x) p -> List.Forall (f
   List.Forall (fun r => 0 < r) (zip2 (fun p T => density p T c_gas_constant_dry_air) p T).
 Proof.
   induction p as [|p0 p IH]; intros [|T0 T] Hp HT; try constructor.
-  - inversion Hp; inversion HT; subst. unfold density. pose proof Rd_pos. apply Rdiv_lt_0_compat; [assumption|nra].
+  - inversion Hp; inversion HT; subst. pose proof Rd_pos. rewrite density_quotient by assumption. apply Rdiv_lt_0_compat; [assumption|nra].
   - inversion Hp; inversion HT; subst. apply IH; assumption.
 Qed.
 
